@@ -31,8 +31,8 @@ MANIFEST = {
     "level_note": "Trusted: Coq kernel; the hand-written model Model/MC.v (tied by correspondence, not by translation); "
                   "numpy.histogram / numpy.mean / numpy.std as oracles (histogram re-computed exactly and compared on generated "
                   "inputs); float rounding (count < confidence*total is compared exactly in Q; inputs whose float product rounds "
-                  "across an integer are excluded and counted); Python bools as sample sizes and an all-undefined draw followed "
-                  "by a defined one are outside the stated domain (hypothesis 'productive').",
+                  "across an integer are excluded and counted); Python bools as sample sizes are outside the "
+                  "stated domain.",
     "design_ref": "DESIGN.md section 4 C16",
 }
 GEN = []
@@ -46,12 +46,18 @@ TRUSTED = [
     "treated as oracles and re-computed exactly",
 ]
 ASSUMPTIONS = [
-    "histogram counts are non-negative integers (numpy.histogram output)",
-    "the confidence level is a real number in [0, 1] (enforced by the setter, proved as an invariant)",
-    "every simulation yields at least one finite outcome (hypothesis 'productive'); an all-undefined draw leaves a cached "
-    "nan while later reads redraw",
-    "sample sizes are ints, not bools (a bool is accepted by the setter and makes numpy.random.normal raise)",
-    "float rounding of confidence*total across an integer and of samples across a bin edge is excluded from the tie (counted)",
+    "histogram counts are non-negative integers (numpy.histogram output; proved for the model's exact histogram)",
+    "the confidence level is a real number in [0, 1] (enforced by the setter, proved as an invariant); 0 is accepted by "
+    "the setter (then k = 0) although the property speaks of (0, 1]; use_mode_with_confidence ignores a falsy argument",
+    "sample sizes are ints, not bools (True is accepted by the setter and makes numpy.random.normal raise): bools are not "
+    "generated; 0 means 'follow the global size' (modelled)",
+    "the mode strategy uses ALL stored samples (numpy.histogram ignores the mask of the configured range): modelled as is, "
+    "the property only promises the range restriction for mean / standard deviation",
+    "the 'over 10 percent' warning divides by the GLOBAL sample size (modelled as is, compared in the correspondence, not "
+    "part of the property); set_xrange with one tuple argument always raises TypeError (modelled)",
+    "a later change of the global size leaves an already drawn sample set (by design): sizes are checked right after a draw",
+    "float rounding: confidence*total across an integer, samples within rounding distance of a bin edge or of a range "
+    "boundary, and sample sets one ulp wide (numpy cannot make 100 bins) are excluded from the tie and counted in the evidence",
 ]
 
 
